@@ -127,7 +127,7 @@ func rmain() (code int) {
 		r.Note("helper functions (not in the reference structure) folded into their callers before analysis: %s; %d call sites inlined, %d go statements and %d method values turned into function literals; left as calls: %s",
 			strings.Join(p.Helpers, ", "), p.Flat.Inlined, p.Flat.GoTurned, p.Flat.Bound, strings.Join(p.Flat.Skipped, "; "))
 		if "" != os.Getenv("CRS_FLATDEBUG") {
-			fmt.Printf("FLATTEN helpers=%v inlined=%d go=%d bound=%d unrolled=%d skipped=%v\n", p.Helpers, p.Flat.Inlined, p.Flat.GoTurned, p.Flat.Bound, p.Unrolled, p.Flat.Skipped)
+			fmt.Printf("FLATTEN helpers=%v inlined=%d go=%d bound=%d unrolled=%d canon=%d devirt=%d renamed=%d skipped=%v\n", p.Helpers, p.Flat.Inlined, p.Flat.GoTurned, p.Flat.Bound, p.Unrolled, p.Canon, p.Devirt, len(p.renamed), p.Flat.Skipped)
 			for _, f := range p.funcs {
 				if nil == f.Parent() {
 					ssa.CheckFlattened(f, os.Stdout)
